@@ -28,7 +28,7 @@ class C14(object):
     def gen(self, rng, tier):
         n_cases = 64 if tier == 'quick' else 600
         for _ in range(n_cases):
-            n = rng.choice([2, 3, 3, 4]) if tier == 'thorough' else rng.choice([2, 3, 3, 3, 4])
+            n = rng.choice([1, 2, 3, 3, 4]) if tier == 'thorough' else rng.choice([1, 2, 3, 3, 3, 3, 4])
             c = gen.rand_dist_case(rng, nmin=n, nmax=n, amax=2 if n == 4 else 3, bases=['linear', 2], max_support=10,
                                    klasses=('str', 'tuple'), allow_space=False)
             if c['names']:
@@ -39,6 +39,8 @@ class C14(object):
                 pv, _ = gen.rand_prob_vector(rng, len(c['outs']), 'small')
                 c['pmf'] = [str(p) for p in pv]
             fam = rng.choice(['singletons', 'pairs', 'chain', 'full', 'random', 'nested'] + (['gapped', 'gapped'] if n == 4 else []))
+            if n == 1:
+                fam = 'singletons'
             if fam == 'singletons':
                 groups = [[i] for i in range(n)]
             elif fam == 'pairs':
@@ -55,7 +57,9 @@ class C14(object):
                 groups = [sorted(rng.sample(range(n), rng.randint(1, n - 1))) for _ in range(rng.randint(1, 3))]
             c.update({'kind': rng.choice(['maxent', 'maxent', 'maxent', 'chain']), 'groups': groups, 'fam': fam,
                       'byname': bool(c['names']) and rng.random() < 0.5, 'pre': rng.choice([None, 'zeros', 'zeros', 'full']),
-                      'k_max': rng.choice([None, None] + list(range(2, n + 1)))})
+                      'k_max': rng.choice([None, None] + list(range(0, n + 1)))})
+            if n == 1:
+                c['kind'], c['groups'], c['fam'] = 'chain', [[0]], 'singletons'
             yield c
 
     def shrink(self, case):
